@@ -281,8 +281,13 @@ impl<T, C: CacheFactory> DataLoader<T, C> {
         T: Loader<K>,
     {
         let tid = TypeId::of::<K>();
-        let mut entry = self.inner.requests.get_async(&tid).await.unwrap();
-        let typed_requests = entry.get_mut().downcast_mut::<Requests<K, T>>().unwrap();
+        let mut entry = self
+            .inner
+            .requests
+            .entry_async(tid)
+            .await
+            .or_insert_with(|| Box::new(Requests::<K, T>::new(&self.cache_factory)));
+        let typed_requests = entry.downcast_mut::<Requests<K, T>>().unwrap();
         typed_requests.disable_cache = !enable;
     }
 
